@@ -444,6 +444,26 @@ def r_binders(ck: Checker) -> None:
         other = "rhs_vars" if side == "lhs_vars" else "lhs_vars"
         term = "lhs" if side == "lhs_vars" else "rhs"
         ck.guard(f"`=` binds {term} only if it has one variable, invertible operations and the other side is bound", eq, c, f"len({side}) == 1 and not has_unsafe_operation({term}) and {other} <= bound_variables", "")
+    # equalities bind in chains (`T0+1 = T1, T1+1 = T2`): the scan over the comparisons is repeated until nothing new is bound
+    cps = ck.func("utils.ast:_collect_binding_information_from_comparisons")
+    scans = [lp for lp in find_nodes(cps.node, lambda n: isinstance(n, ast.For)) if unparse(lp.iter) == cps.params()[0]]  # type: ignore[attr-defined]
+    ck.need(len(scans) == 1, "_collect_binding_information_from_comparisons scans its literals in one loop")
+    outer = enclosing_loop(cps, scans[0])
+    okf, detail = False, "the scan over the comparisons is not inside a loop"
+    if isinstance(outer, ast.While):
+        breaks = [b for b in find_nodes(outer, lambda n: isinstance(n, ast.Break)) if enclosing_loop(cps, b) is outer]
+        itx = ck.interp(cps)
+        snaps = [n for n in find_nodes(outer, lambda n: isinstance(n, ast.Assign)) if len(n.targets) == 1 and isinstance(n.targets[0], ast.Name) and n.lineno < scans[0].lineno]  # type: ignore[attr-defined]
+        copies = [n for n in snaps if unparse(n.value).replace(" ", "") in ("bound_variables.copy()", "set(bound_variables)", "frozenset(bound_variables)", "len(bound_variables)")]  # type: ignore[attr-defined]
+        stop_ok = False
+        if len(copies) == 1 and len(breaks) == 1:
+            o = copies[0].targets[0].id  # type: ignore[attr-defined]
+            cmp_ = "len(bound_variables)" if unparse(copies[0].value).startswith("len(") else "bound_variables"  # type: ignore[attr-defined]
+            stop_ok = itx.holds(breaks[0], f"{o} == {cmp_}")
+        okf = is_const(outer.test, True) and stop_ok
+        detail = f"snapshot before the scan: {[fmt(n) for n in snaps]}; the only exit is `break` under 'snapshot == bound_variables': {stop_ok}"
+    ck.add("equality chains: the scan is repeated until a fixpoint of the bound variables", okf, cps, scans[0], detail,
+           "a single pass binds `T2` in `T1+1 = T2, T0+1 = T1` only if the literals happen to be in dependency order; a snapshot that aliases the live set (`orig = bound_variables`) always compares equal and stops after one pass: variables look unbound (duplication drops them from the aux atom, sum_chains mistakes group variables for local ones)")
     # aggregates
     body = ck.func("utils.ast:collect_binding_information_body")
     itb = ck.interp(body)
@@ -504,7 +524,7 @@ def r_global_vars(ck: Checker) -> None:
 
 
 RULES = [
-    Rule("C07.unique-names", P7 + P4, r_unique_names),
+    Rule("C07.unique-names", P7 + P4, r_unique_names, extra={p_: ("vocabulary", "every predicate of every statement", "becomes part of the vocabulary", "not in the known vocabulary") for p_ in ("C09", "C10", "C11", "C12", "C13", "C16", "C20")}),  # every pass that invents predicates relies on the vocabulary
     Rule("C07.FRESH.predicate", P7 + ("C12",), r_fresh_predicates),
     Rule("C07.FRESH.arity", P7 + ("C11", "C16", "C10"), r_fresh_arity),
     Rule("C07.FRESH.domain-names", P7 + ("C12", "C13", "C20"), r_domain_names),
